@@ -156,6 +156,14 @@ def write_csv(
             _table_to_csv(table, stream, sep, na_rep)
 
 
+def _format_value(x, format_string, unit) -> str:
+    """The text of one represented cell: the column's display format applies to values, not to
+    the representation of a missing value (the only str a non-text column can hold)."""
+    if format_string and not (isinstance(x, str) and unit != "text"):
+        return format_string.format(x)
+    return str(x)
+
+
 def _table_to_csv(table: Table, stream: TextIO, sep: str, na_rep: str) -> None:
     """Writes a single Table to stream as CSV.
     """
@@ -168,7 +176,7 @@ def _table_to_csv(table: Table, stream: TextIO, sep: str, na_rep: str) -> None:
     if table.metadata.transposed:
         formatted_col_vals = (
             (
-                fs.format(x) if fs else str(x)
+                _format_value(x, fs, col.unit)
                 for x in _represent_col_elements(table.df[col.name], col.unit, na_rep)
             )
             for col, fs in zip(table, format_strings)
@@ -187,8 +195,8 @@ def _table_to_csv(table: Table, stream: TextIO, sep: str, na_rep: str) -> None:
         # if True:
         formatted_rows = (
             sep.join(
-                fs.format(x) if fs else str(x)
-                for x, fs in zip(_represent_row_elements(row, units, na_rep), format_strings)
+                _format_value(x, fs, unit)
+                for x, fs, unit in zip(_represent_row_elements(row, units, na_rep), format_strings, units)
             )
             for row in table.df.itertuples(index=False, name=None)
         )
